@@ -81,7 +81,7 @@ func genC33(seed int64, tier string, emit func(run.Case)) {
 		}
 	}
 	r := gen.New(seed)
-	k := tierN(tier, 800, 60000)
+	k := tierN(tier, 800, 30000)
 	for i := 0; i < k; i++ {
 		q := r.Sub(i)
 		var n, t int
